@@ -25,5 +25,5 @@ func (ctx *Context) GetInputRequest() (req protocols.Request)
   pure
   ensures (req != nil) <==> ctxInput(ref(ctx)) != 0
   ensures ifaceVal(req) == ctxInput(ref(ctx))
-  ensures req != nil ==> typeIs(req, "*httpprot.Request") && ifaceVal(req) != 0 && ptr(ifaceVal(req), "*httpprot.Request").Request != nil
+  ensures req != nil ==> typeIs(req, "*httpprot.Request") && ifaceVal(req) != 0 && ptr(ifaceVal(req), "*httpprot.Request").Request != nil && ptr(ifaceVal(req), "*httpprot.Request").Request.URL != nil && ptr(ifaceVal(req), "*httpprot.Request").Request.Header != nil
 @*/
